@@ -81,10 +81,14 @@ func Canon(ps []VPage, starBlank bool) string {
 
 func NormRot(r int) int { return ((r % 360) + 360) % 360 }
 
-// Sem is the semantic identity of a page used by the oracles: rotation mod 360, boxes as they take effect.
+// Sem is the semantic identity of a page used by the oracles: rotation mod 360, boxes as they take
+// effect (a missing CropBox is the MediaBox).
 func (v VPage) Sem() string {
 	w := v
 	w.Rot = NormRot(v.Rot)
+	if w.Crop == nil {
+		w.Crop = w.Media
+	}
 	return w.String()
 }
 
@@ -227,14 +231,14 @@ func (n *Node) Encode() string {
 // ---------------------------------------------------------------- generator
 
 type GenOpt struct {
-	MaxDepth   int  // 1..3: nesting of Pages nodes below the root
-	NodeRot    bool // Rotate on Pages nodes
-	NodeMedia  bool // MediaBox on Pages nodes (pages may then omit theirs)
-	NodeCrop   bool // CropBox on Pages nodes
-	NegRot     bool // allow negative / >= 360 rotations
-	PageBoxes  bool // own CropBox/TrimBox/BleedBox/ArtBox on pages
-	RootAttrs  bool // attributes on the root node
-	FirstID    int  // markers FirstID, FirstID+1, ...
+	MaxDepth  int  // 1..3: nesting of Pages nodes below the root
+	NodeRot   bool // Rotate on Pages nodes
+	NodeMedia bool // MediaBox on Pages nodes (pages may then omit theirs)
+	NodeCrop  bool // CropBox on Pages nodes
+	NegRot    bool // allow negative / >= 360 rotations
+	PageBoxes bool // own CropBox/TrimBox/BleedBox/ArtBox on pages
+	RootAttrs bool // attributes on the root node
+	FirstID   int  // markers FirstID, FirstID+1, ...
 }
 
 var rots = []int{0, 90, 180, 270}
@@ -263,7 +267,7 @@ func Gen(r *rand.Rand, n int, o GenOpt) *Node {
 	var mk func(n, depth int, haveMedia bool, top bool) *Node
 	mk = func(n, depth int, haveMedia bool, top bool) *Node {
 		nd := &Node{}
-		if (!top || o.RootAttrs) || depth == 0 {
+		if !top || o.RootAttrs {
 			if o.NodeRot && r.Intn(3) == 0 {
 				nd.A.Rot = pickRot(r, o.NegRot)
 			}
@@ -277,9 +281,6 @@ func Gen(r *rand.Rand, n int, o GenOpt) *Node {
 			if r.Intn(4) == 0 {
 				nd.A.Res = true
 			}
-		}
-		if top && !o.RootAttrs {
-			nd.A = Attrs{}
 		}
 		rem := n
 		for rem > 0 {
